@@ -28,7 +28,10 @@ Blame ==
   @@ "cb.se"      :> {"C03"}
   @@ "cb.pb"      :> {"C03", "C05"}
   @@ "cb.pe"      :> {"C03"}
-  @@ "cb.pb.failed" :> {"C03", "C04", "C06"}
+  @@ "cb.pb.failed" :> {"C02", "C03", "C04", "C06"}
+  @@ "oe.res.stopped.failed" :> {"C14", "C06"} @@ "oe.res.running.failed" :> {"C14", "C06"}
+  @@ "oe.res.try_from_registry.failed" :> {"C08", "C14", "C06"} @@ "oe.res.already_running.failed" :> {"C08", "C14", "C06"}
+  @@ "oe.done.failed" :> {"C08", "C14", "C06"}
   @@ "cb.fb"      :> {"C03", "C13"}
   @@ "cb.fe"      :> {"C03", "C13"}
   @@ "cb.pb.stream" :> {"C03", "C13"}
@@ -52,7 +55,7 @@ Blame ==
   @@ "oe.res.unregister" :> {"C08"} @@ "oe.res.try_from_registry" :> {"C08", "C14"} @@ "oe.res.already_running" :> {"C08"}
   @@ "oe.ready.from_registry" :> {"C08"} @@ "oe.ready.setup" :> {"C08"} @@ "oe.ready.register" :> {"C08"}
   @@ "oe.ready.replace" :> {"C08"} @@ "oe.ready.unregister" :> {"C08"} @@ "oe.ready.already_running" :> {"C08"}
-  @@ "oe.done"    :> {"C08"}
+  @@ "oe.done"    :> {"C08", "C14"}
   @@ "dn.miss"    :> {"C08", "C14"} @@ "dn.type" :> {"C08"} @@ "dn.lock" :> {"C08"}
   @@ "blk.reglock" :> {"C08"} @@ "blk.regping" :> {"C08"}
   @@ "oe.res.send" :> {"C12", "C02"}
